@@ -13,7 +13,7 @@ from typing import Generic, TypeVar, cast
 
 import numpy
 import xarray
-from shapely.geometry import Polygon, box
+from shapely.geometry import MultiPolygon, Polygon, box
 from shapely.geometry.base import BaseGeometry
 
 from emsarray import masking, utils
@@ -455,10 +455,17 @@ class CFGrid1D(CFGrid[CFGrid1DTopology]):
         return cast(numpy.ndarray, centres)
 
     @cached_property
-    def geometry(self) -> Polygon:
+    def geometry(self) -> Polygon | MultiPolygon:
         # As CFGrid1D is axis aligned,
-        # the geometry can be constructed from the bounds.
-        return box(*self.bounds)
+        # the geometry can be constructed from the bounds,
+        # provided the cell bounds leave no gaps between neighbouring cells.
+        topology = self.topology
+        if all(
+            numpy.array_equal(bounds[1:, 0], bounds[:-1, 1])
+            for bounds in (topology.longitude_bounds.values, topology.latitude_bounds.values)
+        ):
+            return box(*self.bounds)
+        return super().geometry
 
 
 # 2D coordinate grids
